@@ -119,8 +119,10 @@ def rules(ctx):
     # R3: candidates only through the modification API
     common.who_may_call(ctx, "R3.schedule-new-callers", S("new"), [SCHEDULE + "::"],
                         "Schedule::new (trusted constructor) is called only inside impl Schedule", floor=12)
-    common.who_may_construct(ctx, "R3.schedule-producers", SCHEDULE, [S("new")],
-                             "a Schedule value is assembled only in Schedule::new")
+    # set_next_day_transitions replaces two fields of a copy of self (a clone with two stores, or struct-update syntax): its
+    # frame is decided by C07.R4 / C13.R1, what it stores by C16.R3
+    common.who_may_construct(ctx, "R3.schedule-producers", SCHEDULE, [S("new"), S("set_next_day_transitions")],
+                             "a Schedule value is assembled only in Schedule::new (and, from a copy of self, in set_next_day_transitions)")
     common.who_may_call(ctx, "R3.tour-precomputed-callers", T("new_precomputed"), [TOUR + "::"],
                         "Tour::new_precomputed (trusted caches) is called only inside impl Tour", floor=5)
     common.who_may_construct(ctx, "R3.tour-producers", TOUR, [T("new_precomputed")], "a Tour value is assembled only in Tour::new_precomputed")
@@ -175,6 +177,23 @@ def hitch_hiking_refuses_conflicts(ctx, rid="R2"):
         if ins.kind == "assign" and ins.rv_kind() == "discr":
             pl = ins.discr_place()
             ty = fd.body.local_ty(pl.local) if not pl.proj else str(pl.proj[-1].get("ty") or "")
+            if len(pl.proj) == 1 and pl.proj[0].get("tuple") and fd.body.local_ty(pl.local).startswith("("):
+                # component i of a tuple-typed local: read the component type off the tuple type
+                inner, parts, depth, cur = fd.body.local_ty(pl.local)[1:-1], [], 0, ""
+                for ch in inner:
+                    if ch in "<([":
+                        depth += 1
+                    elif ch in ">)]":
+                        depth -= 1
+                    if ch == "," and depth == 0:
+                        parts.append(cur.strip())
+                        cur = ""
+                    else:
+                        cur += ch
+                parts.append(cur.strip())
+                i_ = pl.proj[0].get("i")
+                if i_ is not None and i_ < len(parts):
+                    ty = parts[i_]
             if ty.startswith(("std::option::Option<solution::path::Path", "core::option::Option<solution::path::Path")) and any(d.instr is ap[0] for d in fd.slice(seed_locals=[pl.local], control=False)["defs"]):
                 looked = True
     OPT = ("std::option::Option<solution::path::Path", "core::option::Option<solution::path::Path",
